@@ -398,6 +398,25 @@ class Result:
         return h.hexdigest()
 
 
+class _Dirs(set):
+    """
+    Directories: the registered ones, the mount points, and every prefix of a
+    file's path (a file's parent directory exists without being declared).
+    """
+
+    def __init__(self, names, files):
+        super().__init__(names)
+        self._files = files
+
+    def __contains__(self, path):
+        if set.__contains__(self, path) or path in ("/sim", "/sim/w"):
+            return True
+        if not isinstance(path, str):
+            return False
+        prefix = path + "/"
+        return any(name.startswith(prefix) for name in self._files)
+
+
 class World:
     """The simulated file system, streams, fault plan and step recorder."""
 
@@ -410,7 +429,7 @@ class World:
                 data = data.encode("utf-8")
             self.fs[path] = bytearray(data)
         self.unreadable = set(unreadable)
-        self.dirs = set(dirs)
+        self.dirs = _Dirs(dirs, self.fs)
         # modification times: every pre-existing file carries the same one
         # (trees restored with cp -p / rsync -t / tar look like that); each
         # later write advances a logical clock
